@@ -106,7 +106,7 @@ def run(ctx):
             for w in ("BuildDB::setRuleResult", "BuildDB::setCurrentIteration", "BuildDB::buildStarted", "BuildDB::buildComplete"):
                 if qmatch(nm, w):
                     wr.setdefault(w.split("::")[-1], set()).add(f.name.split("::")[-1] if not f.is_lambda else "build::defer")
-    r.check(wr.get("setRuleResult") == {"executeTasks"} and wr.get("setCurrentIteration") == {"build"} and wr.get("buildStarted") == {"build"}
+    r.check(wr.get("setRuleResult") == {"executeTasks"} and wr.get("setCurrentIteration") in ({"build"}, {"build::defer"}) and wr.get("buildStarted") == {"build"}
             and wr.get("buildComplete") == {"build::defer"}, "engine|writer-callers", "", "database writers are called from %s" % wr)
     ex_callers = set(f.name.split("::")[-1] for f, c in cg.callers_of(E.ENGINE + "::executeTasks"))
     r.check(ex_callers == {"build"}, "engine|work-loop-only-from-build", "", "executeTasks called from %s" % sorted(ex_callers))
@@ -115,7 +115,7 @@ def run(ctx):
     bs = f.calls("BuildDB::buildStarted")
     ex = f.calls(E.ENGINE + "::executeTasks")
     sci = f.calls("BuildDB::setCurrentIteration")
-    if len(bs) != 1 or len(ex) != 1 or len(sci) != 1:
+    if len(bs) != 1 or len(ex) != 1 or len(sci) > 1:
         raise AnalysisBroken("build(): buildStarted=%d executeTasks=%d setCurrentIteration=%d" % (len(bs), len(ex), len(sci)))
     # the defer that calls buildComplete
     defer = None
@@ -143,9 +143,22 @@ def run(ctx):
         r.check(ok, "build|guard-registered-right-after-start", "", "a path leaves build() after a successful buildStarted without the commit guard", f, defer,
                 path=str(w))
         # the work loop and the epoch write happen under the guard
-        for c, nm in ((ex[0], "executeTasks"), (sci[0], "setCurrentIteration")):
+        for c, nm in ((ex[0], "executeTasks"),) + (((sci[0], "setCurrentIteration"),) if sci else ()):
             r.check(cfg.dominated_by(f, cfg.pos_of(f, c), lambda p, e: p == dp)[0], "build|%s-inside-transaction" % nm, "",
                     "%s reachable outside the build transaction" % nm, f, c)
+        if not sci:
+            # the epoch write moved out of build()'s body: inside the transaction only if the commit guard performs it before buildComplete
+            where = []
+            for d_, lf in E.scope_guards(prog, f):
+                cs, bc = lf.calls("BuildDB::setCurrentIteration"), lf.calls("BuildDB::buildComplete")
+                if cs:
+                    where.append(lf)
+                    ok = d_ is defer and len(cs) == 1 and len(bc) == 1 and \
+                        cfg.dominated_by(lf, cfg.pos_of(lf, bc[0]), lambda p, e, sp=cfg.pos_of(lf, cs[0]): p == sp)[0]
+                    r.check(ok, "build|setCurrentIteration-inside-transaction", "", "the epoch is written after buildComplete() has committed the build transaction: "
+                            "a kill between the two commits leaves results stamped with an epoch the database does not record", lf, cs[0])
+            if not where:
+                r.violation("build|setCurrentIteration-inside-transaction", "the current epoch is not written between buildStarted and the commit", f)
         # the guard's destructor runs on every exit after registration: implicit-dtor element on each such path
         dv = defer["vars"][0]["did"]
         w = cfg.path_exists(f, dp, cfg.is_exit, avoid=lambda p, e: isinstance(e, dict) and e.get("x") == "dtor" and e.get("did") == dv)
@@ -205,6 +218,14 @@ def failed_start_only(f, path_blocks, bs_call):
 
 
 VARIANTS = [
+    dict(name="epoch-write-deferred-after-commit", file="lib/Core/BuildEngine.cpp",
+         edits=[("      if (db)\n        db->buildComplete();\n    };", "      if (!db)\n        return;\n      db->buildComplete();\n      std::string error;\n      if (!db->setCurrentIteration(currentEpoch, &error))\n        delegate.error(error);\n    };"),
+                ("    if (db) {\n      std::string error;\n      bool result = db->setCurrentIteration(currentEpoch, &error);\n      if (!result) {\n        delegate.error(error);\n        static ValueType emptyValue{};\n        return emptyValue;\n      }\n    }\n", "")],
+         expect=("R-TXN-SCOPE", "setCurrentIteration-inside-transaction")),
+    dict(name="benign-epoch-write-deferred-before-commit", file="lib/Core/BuildEngine.cpp",
+         edits=[("      if (db)\n        db->buildComplete();\n    };", "      if (!db)\n        return;\n      std::string error;\n      if (!db->setCurrentIteration(currentEpoch, &error))\n        delegate.error(error);\n      db->buildComplete();\n    };"),
+                ("    if (db) {\n      std::string error;\n      bool result = db->setCurrentIteration(currentEpoch, &error);\n      if (!result) {\n        delegate.error(error);\n        static ValueType emptyValue{};\n        return emptyValue;\n      }\n    }\n", "")],
+         expect=None),
     dict(name="journal-in-memory", file="lib/Core/SQLiteBuildDB.cpp", old="    sqlite3_busy_timeout(db, 5000);\n",
          new="    sqlite3_busy_timeout(db, 5000);\n    sqlite3_exec(db, \"PRAGMA journal_mode = MEMORY;\", nullptr, nullptr, nullptr);\n", expect=("R-DB-ATOMIC-COMMIT", "PRAGMA journal_mode")),
     dict(name="synchronous-off", file="lib/Core/SQLiteBuildDB.cpp", old="    sqlite3_busy_timeout(db, 5000);\n",
